@@ -32,6 +32,10 @@ def specs(pid, tier):
         for cols in (8, 16) + ((24, 256) if T else ()):
             sp.append(("max", 0, False, cols, None, None, False, 7))   # height taken from the length field
             sp.append(("max", 3, False, cols, None, None, True, 7))
+        # the same picture from a pipe (no seek / tell), with and without skipped bytes: same pixels
+        sp.append(("pipe", ("hrs", 4, 2, 1, 21)))
+        sp.append(("pipe", ("hrs", 4, 1, None, 18)))
+        sp.append(("pipe", ("max", 3, False, 8, 1, 2, False, 8)))
         sp.append(("mge", "raw", 4 if not T else 8, True))
         sp.append(("mge", "raw", 3 if not T else 6, False))
         sp.append(("cm3", 0x01, ((128, None),)))
@@ -119,6 +123,9 @@ def specs(pid, tier):
     elif pid == "C19":
         for L in range(0, 21 if not T else 25):
             sp.append(("hrs", 4, 2, None, L))
+        # -s N on inputs that end inside (or exactly at the end of) the skipped bytes, and a skip longer than the file
+        for sk, L in ((3, 0), (3, 1), (3, 2), (3, 3), (3, 5), (30, 20), (7, 6)):
+            sp.append(("hrs", 4, 2, sk, L))
         for L in range(0, 8):
             sp.append(("max", 0, False, 8, 2, None, False, L))
             sp.append(("max", 0, False, 8, None, None, False, L))
@@ -253,7 +260,9 @@ def _work(pid, spec, st, out):
     del D.PENDING_GAPS[:]
     del STDOUT_FINDINGS[:]
     try:
-        if pid == "C16":
+        if pid in ("C16", "C17") and spec[0] == "pipe":
+            pipe_equivalence(out, spec, st)
+        elif pid == "C16":
             obligations_pixels(out, spec, st, pid)
         elif pid == "C17":
             obligations_pixels(out, spec, st, pid)
@@ -1125,6 +1134,31 @@ def _truncation_sweeps(out, spec, st):
             out["paths"] += 1
             if stt == "ok" and n != exp:
                 out["sigs"].append(("silent:veftopng:literal-overruns-record", f"squashed VEF with a literal group longer than its record: PNG written with {n} of {exp} pixel values", {}))
+            # the file cut anywhere in its last two records (after a count byte, after a complete packet, inside a packet):
+            # the tool must not report success with fewer pixels than it announces
+            for k in range(1, 8):
+                with contextlib.redirect_stdout(io.StringIO()):
+                    stt, n, exp = run(full[:-k])
+                st.bump("obligations")
+                out["paths"] += 1
+                if stt == "ok" and n != exp:
+                    where = "after-count-byte" if k % 3 == 2 else "after-complete-record" if k % 3 == 0 else "inside-packet"
+                    out["sigs"].append((f"silent:veftopng:squashed-cut-{where}", f"squashed VEF cut {k} bytes before its end: PNG written with {n} of {exp} pixel values", {"cut": k}))
+            # the same with records that hold two packets (literal of 1 + run), cut at the packet boundary inside the last record
+            recs2 = b"".join(bytes([4, 1, (i % 200), 207, 7]) for i in range(400))  # literal 1 byte + run of 79: 80 bytes per record
+            full2 = bytes([128, 0] + list(range(16))) + recs2
+            with contextlib.redirect_stdout(io.StringIO()):
+                stt, n, exp = run(full2)
+            if stt == "ok" and n == exp:
+                for k in range(1, 6):
+                    with contextlib.redirect_stdout(io.StringIO()):
+                        stt, n, exp = run(full2[:-k])
+                    st.bump("obligations")
+                    out["paths"] += 1
+                    if stt == "ok" and n != exp:
+                        out["sigs"].append((f"silent:veftopng:squashed-cut-{'at-packet-boundary' if k == 2 else 'inside-last-record'}", f"squashed VEF (two packets per record) cut {k} bytes before its end: PNG written with {n} of {exp} pixel values", {"cut": k}))
+            else:
+                out["sigs"].append(("harness-gap", f"two-packet squashed reference file is not accepted: {stt} {n} {exp}", None))
             lastlit = bytearray(full[:-3]) + bytes([2, 2, 9])  # last record: literal of 2 bytes, file ends after 1
             with contextlib.redirect_stdout(io.StringIO()):
                 stt, n, exp = run(bytes(lastlit))
@@ -1172,6 +1206,7 @@ def run_prop(pid, tier):
                 ctx.violation(sig, what, {"witness": witness, "case": str(r["spec"])})
     if pid == "C18":
         decoder_cli(ctx)
+        complete_files(ctx)
     if pid == "C16":
         decoder_history(ctx, ["hrstoppm", "pixtopgm", "maxtoppm", "mgetoppm"])
     if pid == "C17":
@@ -1210,6 +1245,71 @@ def history_files():
     return files
 
 
+class real_input:
+    """the bytes as a real file opened for reading (pixtopgm asks the file system for the size of f.name)"""
+
+    def __init__(self, raw):
+        self.raw = raw
+
+    def __enter__(self):
+        import tempfile
+
+        self.tmp = tempfile.NamedTemporaryFile(prefix="vfin", suffix=".bin", delete=False)
+        self.tmp.write(self.raw)
+        self.tmp.close()
+        self.f = open(self.tmp.name, "rb")
+        return self.f
+
+    def __exit__(self, *a):
+        import os
+
+        self.f.close()
+        os.unlink(self.tmp.name)
+        return False
+
+
+def complete_files(ctx):
+    """C18 on complete full-size pictures (the symbolic cases are prefixes and never reach the end of a picture): for two
+    well-formed files per format - raw and run-length MGE among them - the real decoder's output is its header followed by
+    exactly width x height samples"""
+    import importlib
+    import io
+
+    files = history_files()
+    # run-length MGE whose last runs are short (249 + 1 bytes) and one whose runs are all of length 1..255 mixed
+    head_mr = files["mgetoppm:rle"][0][0][:51]
+    runs = b"".join(bytes([250, (i * 7) % 256]) for i in range(128))
+    mixed = b"".join(bytes([255, i % 256]) for i in range(125)) + bytes([124, 3, 1, 4, 0])  # 125 * 255 + 124 + 1 = 32000
+    files["mgetoppm:rle-short-last-runs"] = [(head_mr + runs[:-2] + bytes([249, 5, 1, 9, 0]), ()), (head_mr + mixed, ())]
+    for key, pair in sorted(files.items()):
+        mod = importlib.import_module("coco." + key.split(":")[0])
+        for which, (raw, args) in zip("AB", pair):
+            out = io.BytesIO()
+            ctx.stats["obligations"] += 1
+            ctx.stats["programs"] += 1
+            ctx.stats["traces_validated_against_impl"] += 1
+            try:
+                import contextlib
+
+                with contextlib.redirect_stderr(io.StringIO()), real_input(raw) as fin:
+                    r = mod.convert(fin, out, *args)
+            except BaseException as e:  # noqa: BLE001
+                ctx.violation(f"complete-file:{key}:rejected", f"{key} picture {which} (well-formed, {len(raw)} bytes): {type(e).__name__}", {"decoder": key})
+                continue
+            data = out.getvalue()
+            m = re.match(rb"(P[56])\n(\d+) (\d+)\n255\n", data)
+            if r is False or not m:
+                ctx.violation(f"complete-file:{key}:no-image", f"{key} picture {which}: result {r!r}, output starts {data[:20]!r}", {"decoder": key})
+                continue
+            w, h = int(m.group(2)), int(m.group(3))
+            want = w * h * (3 if m.group(1) == b"P6" else 1)
+            got = len(data) - m.end()
+            if got == want:
+                ctx.stats["identity"] += 1
+            else:
+                ctx.violation(f"complete-file:{key}:sample-count", f"{key} picture {which}: header announces {w}x{h} = {want} samples, {got} written", {"decoder": key})
+
+
 def decoder_history(ctx, decoders):
     """decoding picture B after picture A in the same process gives what a fresh process gives for B (and A again gives A):
     the decoders keep no state between pictures"""
@@ -1231,16 +1331,18 @@ def decoder_history(ctx, decoders):
             import contextlib
 
             out = io.BytesIO()
-            with contextlib.redirect_stderr(io.StringIO()):
+            with contextlib.redirect_stderr(io.StringIO()), real_input(raw) as fin:
                 try:
-                    r = mod.convert(io.BytesIO(raw), out, *args)
+                    r = mod.convert(fin, out, *args)
                     return ("ok" if r is not False else "refused", out.getvalue())
                 except BaseException as e:  # noqa: BLE001
                     return ("exc:" + type(e).__name__, out.getvalue())
 
-        code = ("import sys, io, json, hashlib; sys.path.insert(0, %r); import importlib; m = importlib.import_module('coco.%s'); out = io.BytesIO()\n"
-                "try:\n    r = m.convert(io.BytesIO(bytes.fromhex(sys.stdin.read())), out, *%r); st = 'ok' if r is not False else 'refused'\n"
+        code = ("import sys, io, json, hashlib, tempfile, os; sys.path.insert(0, %r); import importlib; m = importlib.import_module('coco.%s'); out = io.BytesIO()\n"
+                "t = tempfile.NamedTemporaryFile(delete=False); t.write(bytes.fromhex(sys.stdin.read())); t.close(); fin = open(t.name, 'rb')\n"
+                "try:\n    r = m.convert(fin, out, *%r); st = 'ok' if r is not False else 'refused'\n"
                 "except BaseException as e:\n    st = 'exc:' + type(e).__name__\n"
+                "fin.close(); os.unlink(t.name)\n"
                 "print(json.dumps([st, hashlib.sha1(out.getvalue()).hexdigest(), len(out.getvalue())]))" % (REPO, modname, tuple(args_b)))
         pr = subprocess.run([sys.executable, "-c", code], input=raw_b.hex(), capture_output=True, text=True, timeout=300)
         if pr.returncode != 0:
@@ -1255,6 +1357,9 @@ def decoder_history(ctx, decoders):
         ctx.stats["programs"] += 3
         ctx.stats["obligations"] += 2
         ctx.stats["traces_validated_against_impl"] += 1
+        if fresh[0] != "ok" or a1[0] != "ok":
+            ctx.harness_gap(f"{key}: the history pictures are not decoded successfully ({a1[0]}, fresh {fresh[0]}): comparison would be vacuous")
+            continue
         if [b1[0], hashlib.sha1(b1[1]).hexdigest(), len(b1[1])] != fresh:
             i = None
             ctx.violation(f"history:{modname}:second-picture-differs-from-fresh-process", f"{modname}: picture B decoded after picture A: {b1[0]}, {len(b1[1])} bytes, sha1 {hashlib.sha1(b1[1]).hexdigest()[:10]}; in a fresh process {fresh[0]}, {fresh[2]} bytes, sha1 {fresh[1][:10]}", {"decoder": modname})
